@@ -30,6 +30,56 @@ def _is_getmdib(wire):
         or (b'/GetMdib' in wire.data and b'GetMdibResponse' not in wire.data)
 
 
+class HandoverLock:
+    """Wraps the consumer MDIB's buffer lock during a load: when the loader releases it while a receiver thread is waiting
+    for it, the receiver runs first (the loader waits until the receiver has been through its locked section).  That is
+    one of the schedules the real lock admits - the one in which a notification arrives at the very moment the replay
+    of the buffer ends - chosen deterministically instead of left to the OS scheduler."""
+
+    def __init__(self, real):
+        import threading
+        self._real = real
+        self._cv = threading.Condition()
+        self._waiting = 0
+        self._passed = 0
+        self._owner = None
+        self.handovers = 0
+
+    def acquire(self, *a, **kw):
+        import threading
+        with self._cv:
+            self._waiting += 1
+        ok = self._real.acquire(*a, **kw)
+        with self._cv:
+            self._waiting -= 1
+            self._owner = threading.get_ident()
+        return ok
+
+    def release(self):
+        import threading
+        me = threading.get_ident()
+        with self._cv:
+            waiters = self._waiting
+            passed0 = self._passed
+            self._owner = None
+            self._passed += 1
+            self._cv.notify_all()
+        self._real.release()
+        if waiters and threading.current_thread().name != 'late-receiver':
+            with self._cv:
+                if self._cv.wait_for(lambda: self._passed > passed0 + 1, timeout=2.0):
+                    self.handovers += 1
+        del me
+
+    def __enter__(self):
+        self.acquire()
+        return self
+
+    def __exit__(self, *a):
+        self.release()
+        return False
+
+
 class FaultSession:
     def __init__(self, **pair_kw):
         install_clock()
@@ -266,6 +316,9 @@ class FaultSession:
                 th.join(timeout=0.25)     # original code: the receiver blocks on the buffer lock until the load is over
         watch = {name: trigger for name in ('metrics_by_handle', 'description_modifications', 'component_by_handle')}
         op.bind(self.cm, **watch)
+        real_buffer_lock = self.cm._buffered_notifications_lock   # noqa: SLF001
+        handover = HandoverLock(real_buffer_lock)
+        self.cm._buffered_notifications_lock = handover   # noqa: SLF001
         self._post_script = []
         self.loaded_groups = []
         net = self.net
@@ -296,6 +349,8 @@ class FaultSession:
             res = 'exc:' + type(ex).__name__
         finally:
             op.unbind(self.cm, **watch)
+            self.cm._buffered_notifications_lock = real_buffer_lock   # noqa: SLF001
+            self.handovers = getattr(self, 'handovers', 0) + handover.handovers
             if late and late_state['thread'] is None:
                 late_body()                   # nothing was replayed: the late reports simply arrive after the load
             elif late_state['thread'] is not None:
@@ -344,7 +399,7 @@ def check(run, replay_path=None):
     fault_family(run)
 
 
-def fault_family(run, family=None, num=None, prefixes=('R:',), with_model=True, seed_offset=0):
+def fault_family(run, family=None, num=None, prefixes=('R:', 'L:'), with_model=True, seed_offset=0):
     """The fault-delivery sessions; `family`: only these clauses are reported (C11 reuses the sessions for lookups_agree
     with a cover of the deliveries whose description report has a part that is rejected after another was applied)."""
     if with_model:
@@ -375,11 +430,13 @@ def fault_family(run, family=None, num=None, prefixes=('R:',), with_model=True, 
     behs = purpose[:run.pick(6, 60)] + behs
     variants = [dict(), dict(async_mgr=True)]
     traces = []
+    handovers = 0
     for i, beh in enumerate(behs):
         ses = FaultSession(**variants[i % len(variants)])
         try:
             traces.append(ses.run(beh))
         finally:
+            handovers += getattr(ses, 'handovers', 0)
             ses.close()
     rejects = tracecheck.validate(run, 'MirrorFaultTrace', 'MirrorFaultTrace.cfg', [strip(t) for t in traces],
                                   chunk=500)
@@ -390,6 +447,7 @@ def fault_family(run, family=None, num=None, prefixes=('R:',), with_model=True, 
     run.count('loads', sum(1 for t in traces for r in t if r['act'] == 'Load'))
     run.count('loads_with_arrival_during_replay', sum(1 for t in traces for r in t if r['act'] == 'Load'
                                                       and r.get('late_in_replay')))
+    run.count('load_handovers_of_the_buffer_lock_to_a_waiting_receiver', handovers)
     run.count('loads_with_traffic', sum(1 for t in traces for r in t if r['act'] == 'Load'
                                         and (r['n_pre'] or r['n_post'])))
     run.count('epoch_changes', sum(1 for t in traces for r in t if r['act'] == 'Restart'))
